@@ -11,6 +11,13 @@ import GeoProofs.Lemmas.RelateSpecSwap
 import GeoProofs.Lemmas.RelateSpecDisjoint
 import GeoProofs.Lemmas.RelateSpecRewrite
 import GeoProofs.Lemmas.RelateSpecReverse
+import GeoProofs.Lemmas.C01QAtoms
+import GeoProofs.Lemmas.C01QDisjoint
+import GeoProofs.Lemmas.C01QTypes
+import GeoProofs.Lemmas.C01QAreal
+import GeoProofs.Lemmas.C01QPoint
+import GeoProofs.Lemmas.C01QTriangle
+import GeoProofs.Lemmas.C01QLine
 import Mathlib.Tactic.NormNum
 
 namespace Geo.Proofs.C01
@@ -622,5 +629,272 @@ theorem locate_collection_perm {gs gs' : List Geom} (h : gs.Perm gs') (p : Pt) :
 
 example (g1 g2 g : Geom) : relateSpec (.collection [g1, g2]) g = relateSpec (.collection [g2, g1]) g :=
   relateSpec_collection_perm (List.Perm.swap _ _ _) g
+
+/-! ## 4'. Disjoint-envelope shortcut, full equality: IE / BE / EI / EB are the dimensions of `HasDimensions` -/
+
+/-- [T] the midpoint of an elementary sub-segment is never a vertex of the arrangement (the vertices on
+a segment are sorted by distance from its start), so every atom is a vertex atom or sits at a
+non-vertex point of a non-degenerate segment. -/
+theorem mem_atomsOf_cases {pa pb : Parts} {x : Atom} (hx : x ∈ Spec.atomsOf pa pb) :
+    (∃ v ∈ Spec.vertsOf pa pb, x = ⟨.zero, locateParts pa v, locateParts pb v⟩) ∨
+    (∃ s ∈ pa.allSegs ++ pb.allSegs, s.1 ≠ s.2 ∧ ∃ m, Geo.Proofs.Kernel.SegMem m s.1 s.2 ∧ m ∉ Spec.vertsOf pa pb ∧
+      Spec.IsAtomAt pa pb s.1 s.2 m x) := Spec.mem_atomsOf_cases hx
+
+/-- [T] conversely every non-degenerate segment carries the three atoms (midpoint, two face samples)
+of a non-vertex point. -/
+theorem exists_atoms_of_seg {pa pb : Parts} {s : Pt × Pt} (hs : s ∈ pa.allSegs ++ pb.allSegs) (hne : s.1 ≠ s.2) :
+    ∃ m, Geo.Proofs.Kernel.SegMem m s.1 s.2 ∧ m ∉ Spec.vertsOf pa pb ∧
+      ∀ x, Spec.IsAtomAt pa pb s.1 s.2 m x → x ∈ Spec.atomsOf pa pb := Spec.exists_atoms_of_seg hs hne
+
+/-- [T] for separated operands the cell `(X, Exterior)` is the largest dimension of an atom located
+`X` w.r.t. the first operand (`Spec.RowMax`). -/
+theorem cell_of_rowMax {pa pb : Parts} (h : Spec.Sep pa pb) (ca : Spec.ClosedExt pa) (cb : Spec.ClosedExt pb)
+    {X : Pos} (hX : X ≠ .outside) {d : Dim} (hm : Spec.RowMax pa pb X d) :
+    (relateParts pa pb).get X .outside = d := Spec.cell_of_rowMax h ca cb hX hm
+
+/-- [T] **disjoint-envelope shortcut, full equality on parts**: for separated operands the matrix of
+the specification is `compute_disjoint` of the row maxima Interior / Boundary of the two operands. -/
+theorem relateParts_disjoint_eq {pa pb : Parts} (h : Spec.Sep pa pb) (ca : Spec.ClosedExt pa) (cb : Spec.ClosedExt pb)
+    {da ba db bb : Dim}
+    (hia : Spec.RowMax pa pb .inside da) (hba : Spec.RowMax pa pb .onBoundary ba)
+    (hib : Spec.RowMax pb pa .inside db) (hbb : Spec.RowMax pb pa .onBoundary bb)
+    (hda : ba ≠ .empty → da ≠ .empty) (hdb : bb ≠ .empty → db ≠ .empty) :
+    relateParts pa pb = computeDisjoint da ba db bb :=
+  Spec.relateParts_disjoint_eq h ca cb hia hba hib hbb hda hdb
+
+/-- [T] **`relate` of operands with separated envelopes = `compute_disjoint` of what `HasDimensions`
+reports**, for operands whose `dims` / `boundaryDims` are the row maxima of the specification
+(`Spec.DimsSpec`, proved per type below).
+Full statement (no `DimsSpec` hypotheses): false as it stands — see `dimsSpec_*_witness` (one-coordinate
+LineString, degenerate Rect) — and open for polygons (needs S2: a valid polygon has an interior face
+sample) and for collections (`boundary_dimensions` of a collection is the maximum over the members,
+the specification applies the mod-2 rule across all members). -/
+theorem relateSpec_disjoint_eq_partial {a b : Geom} (h : Spec.Sep (parts a) (parts b))
+    (ca : Spec.ClosedExt (parts a)) (cb : Spec.ClosedExt (parts b)) (ha : Spec.DimsSpec a) (hb : Spec.DimsSpec b) :
+    relateSpec a b = computeDisjoint (dims a) (boundaryDims a) (dims b) (boundaryDims b) :=
+  Spec.relateSpec_disjoint_of_dimsSpec h ca cb ha hb
+
+/-- [T] one operand at a time: the cells IE and BE are `dims a` and `boundaryDims a`. -/
+theorem relateSpec_sep_row {a b : Geom} (h : Spec.Sep (parts a) (parts b))
+    (ca : Spec.ClosedExt (parts a)) (cb : Spec.ClosedExt (parts b)) (ha : Spec.DimsSpec a) :
+    (relateSpec a b).ie = dims a ∧ (relateSpec a b).be = boundaryDims a :=
+  ⟨Spec.cell_of_rowMax h ca cb (by decide) (ha.inside _), Spec.cell_of_rowMax h ca cb (by decide) (ha.boundary _)⟩
+
+/-- [T] … and EI, EB are `dims b` and `boundaryDims b`. -/
+theorem relateSpec_sep_col {a b : Geom} (h : Spec.Sep (parts a) (parts b))
+    (ca : Spec.ClosedExt (parts a)) (cb : Spec.ClosedExt (parts b)) (hb : Spec.DimsSpec b) :
+    (relateSpec a b).ei = dims b ∧ (relateSpec a b).eb = boundaryDims b := by
+  have ht : relateSpec a b = (relateSpec b a).transpose := relateSpec_transpose b a
+  have := relateSpec_sep_row h.symm cb ca hb
+  rw [ht]
+  generalize relateSpec b a = m at this ⊢
+  cases m
+  exact this
+
+/-- [T] per type: `HasDimensions` = row maxima of the specification. Point, MultiPoint. -/
+theorem dimsSpec_point (p : Pt) : Spec.DimsSpec (.point p) := Spec.dimsSpec_point p
+
+theorem dimsSpec_multiPoint (ps : List Pt) : Spec.DimsSpec (.multiPoint ps) := Spec.dimsSpec_multiPoint ps
+
+/-- [T] Line (degenerate or not). -/
+theorem dimsSpec_line (a b : Pt) : Spec.DimsSpec (.line a b) := Spec.dimsSpec_line a b
+
+/-- [T] LineString, open or closed, constant or not, any number of coordinates except one. -/
+theorem dimsSpec_lineString (cs : List Pt) (hlen : cs.length ≠ 1) : Spec.DimsSpec (.lineString cs) :=
+  Spec.dimsSpec_lineString cs hlen
+
+/-- the excluded class: a one-coordinate LineString is `ZeroDimensional` for `HasDimensions` but has an
+empty interior in the specification (no segment, so no point is located on it) -/
+theorem dimsSpec_lineString_witness : dims (.lineString [⟨0, 0⟩]) = .zero := by decide +kernel
+
+theorem dimsSpec_lineString_witness_ie : (relateSpec (.lineString [⟨0, 0⟩]) (.point ⟨5, 5⟩)).ie = .empty := by
+  decide +kernel
+
+/-- [T] MultiLineString without one-coordinate members: the boundary dimension by the mod-2 rule across
+the members (the fixed `boundary_dimensions`) is the row maximum Boundary of the specification. -/
+theorem dimsSpec_multiLineString (ls : List (List Pt)) (hlen : ∀ l ∈ ls, l.length ≠ 1) :
+    Spec.DimsSpec (.multiLineString ls) := Spec.dimsSpec_multiLineString ls hlen
+
+/-- [T] the number of collected open-member end points equal to `e` (what the fixed
+`MultiLineString::boundary_dimensions` counts) is the end point count of the specification. -/
+theorem count_mlsEnds (e : Pt) (ls : List (List Pt)) :
+    ((Spec.mlsEnds ls).filter (· == e)).length = endpointCount e ls := by
+  rw [Spec.count_mlsEnds, Spec.endpointCount_eq_esum]
+
+/-- two members sharing an end point: boundary `0` (the two outer ends); a closed path made of two
+members: boundary `F` -/
+example : boundaryDims (.multiLineString [[⟨0, 0⟩, ⟨1, 0⟩], [⟨1, 0⟩, ⟨1, 1⟩]]) = .zero := by decide +kernel
+example : boundaryDims (.multiLineString [[⟨0, 0⟩, ⟨1, 0⟩], [⟨1, 0⟩, ⟨0, 0⟩]]) = .empty := by decide +kernel
+
+/-- [T] Rect of positive width and height (interior face sample computed: the left sample beside the
+first edge has winding number 1). -/
+theorem dimsSpec_rect (mn mx : Pt) (hx : mn.x < mx.x) (hy : mn.y < mx.y) : Spec.DimsSpec (.rect mn mx) :=
+  Spec.dimsSpec_rect mn mx hx hy
+
+theorem rect_interior_sample (mn mx : Pt) (hx : mn.x < mx.x) (hy : mn.y < mx.y) :
+    Spec.HasInteriorSample (parts (.rect mn mx)) := Spec.rect_interior_sample mn mx hx hy
+
+/-- the excluded class: a degenerate Rect is `ZeroDimensional` with empty boundary for `HasDimensions`;
+in the specification the point is a boundary point of the (degenerate) ring -/
+theorem dimsSpec_rect_witness :
+    dims (.rect ⟨0, 0⟩ ⟨0, 0⟩) = .zero ∧ boundaryDims (.rect ⟨0, 0⟩ ⟨0, 0⟩) = .empty ∧
+    (relateSpec (.rect ⟨0, 0⟩ ⟨0, 0⟩) (.point ⟨5, 5⟩)).ie = .empty ∧
+    (relateSpec (.rect ⟨0, 0⟩ ⟨0, 0⟩) (.point ⟨5, 5⟩)).be = .zero :=
+  ⟨by decide +kernel, by decide +kernel, by decide +kernel, by decide +kernel⟩
+
+/-- [T] Triangle with non-collinear vertices (interior face sample computed: the sample beside the first
+edge on the side of the third vertex has winding number ±1, whatever the orientation and position). -/
+theorem dimsSpec_triangle (a b c : Pt) (hD : cross a b c ≠ 0) : Spec.DimsSpec (.triangle a b c) :=
+  Spec.dimsSpec_triangle a b c hD
+
+theorem triangle_interior_sample (a b c : Pt) (hD : cross a b c ≠ 0) :
+    Spec.HasInteriorSample (parts (.triangle a b c)) := Spec.triangle_interior_sample a b c hD
+
+example : Spec.DimsSpec (.triangle ⟨0, 0⟩ ⟨4, 1⟩ ⟨1, 3⟩) := dimsSpec_triangle _ _ _ (by norm_num [cross])
+
+/-- the excluded class: a collinear Triangle is `OneDimensional` for `HasDimensions`; in the specification
+its (degenerate) ring is all boundary -/
+theorem dimsSpec_triangle_witness : dims (.triangle ⟨0, 0⟩ ⟨1, 0⟩ ⟨2, 0⟩) = .one := by decide +kernel
+
+theorem dimsSpec_triangle_witness_ie :
+    (relateSpec (.triangle ⟨0, 0⟩ ⟨1, 0⟩ ⟨2, 0⟩) (.point ⟨5, 5⟩)).ie = .empty := by decide +kernel
+
+/-- [T] Polygon of dimension two, given an interior face sample.
+Full statement: `DimsSpec (.polygon q)` for every valid polygon — needs S2 (a valid polygon has a face
+sample of the arrangement in its interior). -/
+theorem dimsSpec_polygon_partial (q : Poly) (hd : polyDims q = .two)
+    (hi : Spec.HasInteriorSample (parts (.polygon q))) : Spec.DimsSpec (.polygon q) :=
+  Spec.dimsSpec_polygon_partial q hd hi
+
+/-- [T] MultiPolygon of dimension two, given an interior face sample and a boundary midpoint (a ring
+midpoint of one member could lie strictly inside another member of an invalid MultiPolygon). -/
+theorem dimsSpec_multiPolygon_partial (ps : List Poly) (hd : mpolyDims ps = .two)
+    (hi : Spec.HasInteriorSample (parts (.multiPolygon ps))) (hb : Spec.HasBoundarySample (parts (.multiPolygon ps))) :
+    Spec.DimsSpec (.multiPolygon ps) := Spec.dimsSpec_multiPolygon_partial ps hd hi hb
+
+/-- a segment left of a rectangle: the whole matrix is `compute_disjoint` of the dimensions -/
+example : relateSpec (.line ⟨0, 0⟩ ⟨1, 1⟩) (.rect ⟨5, 0⟩ ⟨7, 2⟩) =
+    computeDisjoint (dims (.line ⟨0, 0⟩ ⟨1, 1⟩)) (boundaryDims (.line ⟨0, 0⟩ ⟨1, 1⟩))
+      (dims (.rect ⟨5, 0⟩ ⟨7, 2⟩)) (boundaryDims (.rect ⟨5, 0⟩ ⟨7, 2⟩)) := by
+  apply relateSpec_disjoint_eq_partial _ _ _ (dimsSpec_line _ _) (dimsSpec_rect _ _ (by norm_num) (by norm_num))
+  · left
+    intro a ha b hb
+    simp [Spec.allCoords, Poly.rings, parts, SM.rectToPolygon] at ha hb
+    rcases ha with rfl | rfl <;> rcases hb with rfl | rfl | rfl | rfl | rfl <;> norm_num
+  · intro q hq; simp [parts] at hq
+  · intro q hq
+    simp [parts] at hq
+    subst hq
+    rfl
+
+example : computeDisjoint (dims (.line ⟨0, 0⟩ ⟨1, 1⟩)) (boundaryDims (.line ⟨0, 0⟩ ⟨1, 1⟩))
+      (dims (.rect ⟨5, 0⟩ ⟨7, 2⟩)) (boundaryDims (.rect ⟨5, 0⟩ ⟨7, 2⟩)) = ⟨.empty, .empty, .one, .empty, .empty, .zero, .two, .one, .two⟩ := by
+  decide +kernel
+
+/-! ## 6. Spec adequacy (S1), restricted forms: the full matrix against a Point -/
+
+/-- [T] a cell other than EE is the largest dimension of an atom located there (`Spec.CellMax`). -/
+theorem cell_of_cellMax {pa pb : Parts} {X Y : Pos} {d : Dim} (hne : ¬ (X = .outside ∧ Y = .outside))
+    (hm : Spec.CellMax pa pb X Y d) : (relateParts pa pb).get X Y = d := Spec.cell_of_cellMax hne hm
+
+/-- [T] **rows Interior and Boundary of `Point c` against any geometry**: the cell `(Interior, Y)` is `0`
+if `c` is located `Y` w.r.t. the other operand and `F` otherwise; the row Boundary is `F` — the true
+DE-9IM rows of a point (the point set `{c}` meets exactly one of interior / boundary / exterior of `B`,
+in a set of dimension 0). Lifts `isWithin_relate_point` (C02) from mask level to cell level. -/
+theorem relateSpec_point_row (c : Pt) (b : Geom) (X Y : Pos) (hX : X ≠ .outside) :
+    (relateSpec (.point c) b).get X Y = if X = .inside ∧ locate b c = Y then .zero else .empty :=
+  Spec.relate_point_left c (parts b) X Y hX
+
+/-- [T] **columns Interior and Boundary of any geometry against `Point c`** (lifts
+`isContains_relate_point` / `isIntersects_relate_point`). -/
+theorem relateSpec_point_col (a : Geom) (c : Pt) (X Y : Pos) (hY : Y ≠ .outside) :
+    (relateSpec a (.point c)).get X Y = if Y = .inside ∧ locate a c = X then .zero else .empty :=
+  Spec.relate_point_right (parts a) c X Y hY
+
+example : (relateSpec (.point ⟨1, 1⟩) (.line ⟨0, 0⟩ ⟨2, 2⟩)).get .inside .inside = .zero := by
+  rw [relateSpec_point_row _ _ _ _ (by decide)]
+  have : locate (.line ⟨0, 0⟩ ⟨2, 2⟩) ⟨1, 1⟩ = .inside := by decide +kernel
+  simp [this]
+
+/-- [T] **Point × Point, the full matrix**: `0FFFFFFF2` for equal points, `FF0FFF0F2` otherwise. -/
+theorem relateSpec_point_point (c d : Pt) :
+    relateSpec (.point c) (.point d) =
+      if c = d then ⟨.zero, .empty, .empty, .empty, .empty, .empty, .empty, .empty, .two⟩
+      else ⟨.empty, .empty, .zero, .empty, .empty, .empty, .zero, .empty, .two⟩ :=
+  Spec.relateParts_point_point c d
+
+example : (relateSpec (.point ⟨1, 2⟩) (.point ⟨1, 2⟩)).str = "0FFFFFFF2" := by
+  rw [relateSpec_point_point, if_pos rfl]; decide
+example : (relateSpec (.point ⟨1, 2⟩) (.point ⟨3, 2⟩)).str = "FF0FFF0F2" := by
+  rw [relateSpec_point_point, if_neg (by simp)]; decide
+
+/-- [T] **Line × Point, the full matrix** (non-degenerate Line): `IE = 1`, `BE = 0` always; the point
+puts a `0` into II, BI or EI according to its location (`0F1FF0FF2`, `FF10F0FF2`, `FF1FF00F2`). -/
+theorem relateSpec_line_point (a b c : Pt) (hab : a ≠ b) :
+    relateSpec (.line a b) (.point c) =
+      match locate (.line a b) c with
+      | .inside => ⟨.zero, .empty, .one, .empty, .empty, .zero, .empty, .empty, .two⟩
+      | .onBoundary => ⟨.empty, .empty, .one, .zero, .empty, .zero, .empty, .empty, .two⟩
+      | .outside => ⟨.empty, .empty, .one, .empty, .empty, .zero, .zero, .empty, .two⟩ :=
+  Spec.relateParts_line_point a b c hab
+
+/-- [T] **Point × Line, the full matrix**: the transpose (`0FFFFF102`, `F0FFFF102`, `FF0FFF102`). -/
+theorem relateSpec_point_line (a b c : Pt) (hab : a ≠ b) :
+    relateSpec (.point c) (.line a b) =
+      match locate (.line a b) c with
+      | .inside => ⟨.zero, .empty, .empty, .empty, .empty, .empty, .one, .zero, .two⟩
+      | .onBoundary => ⟨.empty, .zero, .empty, .empty, .empty, .empty, .one, .zero, .two⟩
+      | .outside => ⟨.empty, .empty, .zero, .empty, .empty, .empty, .one, .zero, .two⟩ := by
+  rw [relateSpec_transpose (.line a b) (.point c), relateSpec_line_point a b c hab]
+  cases locate (.line a b) c <;> rfl
+
+example : (relateSpec (.point ⟨0, 0⟩) (.line ⟨0, 0⟩ ⟨2, 2⟩)).str = "F0FFFF102" := by
+  rw [relateSpec_point_line _ _ _ (by simp)]
+  have : locate (.line ⟨0, 0⟩ ⟨2, 2⟩) ⟨0, 0⟩ = .onBoundary := by decide +kernel
+  rw [this]; decide
+
+/-! ## 7. Spec adequacy (S1), restricted form: two segments against the point-set definition -/
+
+/-- [T] point location of a non-degenerate Line is the point-set one: interior = on the segment and not
+an end point. -/
+theorem locate_line_inside (a b p : Pt) (hab : a ≠ b) :
+    locate (.line a b) p = .inside ↔ Spec.SegInt p a b := Spec.locate_line_inside a b p hab
+
+/-- [T] between two different arrangement vertices on a segment there is an elementary sub-segment
+whose midpoint lies between them, is not a vertex and carries atoms (the arrangement atoms meet every
+open piece of a segment: the one-dimensional part of S1). -/
+theorem exists_atom_between (pa pb : Parts) {verts : List Pt} {a b x y : Pt} (hab : a ≠ b)
+    (hxv : x ∈ verts) (hyv : y ∈ verts) (hx : Geo.Proofs.Kernel.SegMem x a b) (hy : Geo.Proofs.Kernel.SegMem y a b)
+    (hxy : x ≠ y) :
+    ∃ m, Geo.Proofs.Kernel.SegMem m x y ∧ Geo.Proofs.Kernel.SegMem m a b ∧ m ∉ verts ∧
+      ∀ z, Spec.IsAtomAt pa pb a b m z → z ∈ segAtoms pa pb verts (a, b) :=
+  Spec.exists_atom_between pa pb hab hxv hyv hx hy hxy
+
+/-- [T] **Line × Line: II ≠ F iff the open segments share a point** (`cell_complete` for the cell II of
+two segments: single intersection point = arrangement vertex by `li_single_exact`; collinear overlap
+= a sub-segment midpoint inside the overlap by `li_collinear_exact`). -/
+theorem relateSpec_line_line_ii (a b c d : Pt) (hab : a ≠ b) (hcd : c ≠ d) :
+    (relateSpec (.line a b) (.line c d)).ii ≠ .empty ↔ ∃ p, Spec.SegInt p a b ∧ Spec.SegInt p c d :=
+  Spec.line_line_ii_ne_empty a b c d hab hcd
+
+/-- [T] **Line × Line: II = 1 iff the segments share more than one point** (they overlap). -/
+theorem relateSpec_line_line_ii_one (a b c d : Pt) (hab : a ≠ b) (hcd : c ≠ d) :
+    (relateSpec (.line a b) (.line c d)).ii = .one ↔
+      ∃ p q, p ≠ q ∧ Geo.Proofs.Kernel.SegMem p a b ∧ Geo.Proofs.Kernel.SegMem p c d ∧
+        Geo.Proofs.Kernel.SegMem q a b ∧ Geo.Proofs.Kernel.SegMem q c d :=
+  Spec.line_line_ii_one a b c d hab hcd
+
+/-- two crossing diagonals: II ≠ F; two overlapping collinear segments: II = 1 -/
+example : (relateSpec (.line ⟨0, 0⟩ ⟨2, 2⟩) (.line ⟨0, 2⟩ ⟨2, 0⟩)).ii ≠ .empty := by
+  rw [relateSpec_line_line_ii _ _ _ _ (by simp) (by simp)]
+  refine ⟨⟨1, 1⟩, ⟨⟨1/2, by norm_num, by norm_num, by norm_num, by norm_num⟩, by simp, by simp⟩,
+    ⟨⟨1/2, by norm_num, by norm_num, by norm_num, by norm_num⟩, by simp, by simp⟩⟩
+
+example : (relateSpec (.line ⟨0, 0⟩ ⟨2, 0⟩) (.line ⟨1, 0⟩ ⟨3, 0⟩)).ii = .one := by
+  rw [relateSpec_line_line_ii_one _ _ _ _ (by simp) (by simp)]
+  refine ⟨⟨1, 0⟩, ⟨2, 0⟩, by simp, ⟨1/2, by norm_num, by norm_num, by norm_num, by norm_num⟩,
+    ⟨0, by norm_num, by norm_num, by norm_num, by norm_num⟩,
+    ⟨1, by norm_num, by norm_num, by norm_num, by norm_num⟩,
+    ⟨1/2, by norm_num, by norm_num, by norm_num, by norm_num⟩⟩
 
 end Geo.Proofs.C01
